@@ -153,6 +153,7 @@ type frame struct {
 	pendingSite ssa.Instruction
 	guardedRefs map[ssa.Value]guardedRef
 	aliasLocals map[string]string // recorded name the function no longer has -> current name of that variable
+	aliasVals   map[string]ssa.Value // recorded name whose variable was inlined away -> the value it held
 	aliasParams map[string]int
 }
 
@@ -561,7 +562,7 @@ func (f *FnCtx) newFrame(fn *ssa.Function, args, fvs []Val, top bool, depth int)
 		fr.params[p.Name()] = args[i]
 	}
 	f.e.bindMu.Lock()
-	fr.aliasLocals, fr.aliasParams = f.e.aliases(fn)
+	fr.aliasLocals, fr.aliasParams, fr.aliasVals = f.e.aliasesV(fn)
 	f.e.bindMu.Unlock()
 	for n, i := range fr.aliasParams {
 		fr.params[n] = args[i]
@@ -923,6 +924,13 @@ func (fr *frame) localEnvAt(h *ssa.BasicBlock, edgeFrom *ssa.BasicBlock, heap *H
 		if v, ok := env[cur]; ok {
 			if _, have := env[old]; !have {
 				env[old] = v
+			}
+		}
+	}
+	for old, v := range fr.aliasVals {
+		if _, have := env[old]; !have {
+			if val, ok := fr.valOK(v); ok {
+				env[old] = val
 			}
 		}
 	}
